@@ -441,6 +441,10 @@ func (sigPoK *SigPoK) fromBytes(c *math.Curve, bytes []byte) error {
 		return fmt.Errorf("malformed proof of signature knowledge: %v", err)
 	}
 
+	if len(rspok.Data) != 5 {
+		return fmt.Errorf("malformed proof of signature knowledge: expected 5 components but got %d", len(rspok.Data))
+	}
+
 	sigPoK.ψ = PoKofSignaturePoCorrectForm{}
 	if err := sigPoK.ψ.fromBytes(c, rspok.Data[0]); err != nil {
 		return err
